@@ -178,6 +178,9 @@ def bqm_case(ctx, r, B, spec):
             vt = F.hx(F.vars_text(m.variables))
             B.add(f'hdrbqm {ver} {int(ign)} {0 if m.vartype is dimod.SPIN else 1} {dt.itemsize} 4 {lin} {low} {wire_labels(m.variables)}',
                   wire_hdr(hv), 'BinaryQuadraticModel.to_file header dict vs bqmHeaderDict', ic, 'header dictionary (values)', rp)
+            B.add(f'hdrtextbqm {ver} {int(ign)} {0 if m.vartype is dimod.SPIN else 1} {dt.itemsize} 4 {lin} {low} {wire_labels(m.variables)}',
+                  F.hx(text), 'BinaryQuadraticModel.to_file header text vs dumpsDict', ic, 'header JSON text', rp)
+            B.add(f'parsehdr bqm {F.hx(text)}', H, 'read_header + field extraction vs parseBqmHeader', ic, 'header fields parsed from the text', rp)
             B.add(f'encbqm {ver} {F.hx(text)} {H} {off} {lin} {low} {vt}', F.hx(data), site, ic, 'encoded bytes', rp)
             new = dimod.BQM.from_file(data)
             off2, lin2, low2 = F.content_qm(new)
@@ -216,6 +219,11 @@ def qm_case(ctx, r, B, spec):
     vt = F.hx(F.vars_text(m.variables))
     B.add(f'hdrqm {m.dtype.itemsize} 4 {lin} {low} {wire_labels(m.variables)}', wire_hdr(hv),
           'QuadraticModel.to_file header dict vs qmHeaderDict', ic, 'header dictionary (values)', rp)
+    B.add(f'hdrtextqm {m.dtype.itemsize} 4 {lin} {low} {wire_labels(m.variables)}', F.hx(text),
+          'QuadraticModel.to_file header text vs dumpsDict', ic, 'header JSON text', rp)
+    B.add(f'parsehdr qm {F.hx(text)}', H, 'read_header + field extraction vs parseQmHeader', ic, 'header fields parsed from the text', rp)
+    for kcut in sorted(set(r.sample(range(len(text)), min(4, len(text))))):
+        B.add(f'parsehdr qm {F.hx(text[:kcut])}', 'none', 'json.loads vs loadsDict', 'proper prefix of a header text', 'prefix rejected', rp)
     B.add(f'encqm {F.hx(text)} {H} {vi} {off} {lin} {low} {vt}', F.hx(data), site, ic, 'encoded bytes', rp)
     new = dimod.QM.from_file(data)
     off2, lin2, low2 = F.content_qm(new)
@@ -337,6 +345,9 @@ def cqm_case(ctx, r, B, spec):
         # expressions on their own (objective member)
         if 'objective' in md:
             hvx, Hx = expr_header_H(otext)
+            B.add(f'hdrtextexpr {hvx["type"]} 8 4 {F.content_expr(m.objective, variables)}', F.hx(otext),
+                  '_cyExpression._into_file header text vs dumpsDict', ic, 'header JSON text', rp)
+            B.add(f'parsehdr expr {F.hx(otext)}', Hx, 'read_header + field extraction vs parseExprHeader', ic, 'header fields parsed from the text', rp)
             B.add(f'hdrexpr {hvx["type"]} 8 4 {F.content_expr(m.objective, variables)}', wire_hdr(hvx),
                   '_cyExpression._into_file header dict vs exprHeaderDict', ic, 'header dictionary (values)', rp)
             B.add(f'decexpr full {F.hx(otext)} {Hx} {F.hx(md["objective"])}',
